@@ -22,7 +22,7 @@ ASSUMPTIONS = [
 
 
 def gen_cases(tier, seed):
-    n = 2000 if tier == "quick" else 50000
+    n = 2000 if tier == "quick" else 30000
     out = []
     for i in range(n):
         s = env.seed_for(seed, ID, tier, i)
